@@ -194,7 +194,7 @@ def build(p):
             E.emit("Layer", k=i, s=t, a=main_param, b=ly.get("sleep", -1),
                    c=7 if ly.get("policy") else (1 if ly.get("block") else 0),
                    xs=[{"tag": 1, "raise": 2, "reraise": 3, "nonfuture": 4, "later": 5, "none": 6, None: 0}[ly.get("fn")],
-                       {"tag": 1, "raise": 2, "reraise": 3, "fail_future": 4, "none": 6, None: 0}[ly.get("efn")],
+                       {"tag": 1, "raise": 2, "reraise": 3, "fail_future": 4, "nonfuture": 5, "none": 6, None: 0}[ly.get("efn")],
                        {"first": 1, "second": 2, "raise1": 3, "never": 4, None: 0}[ly.get("mode")]])
             if t == "map":
                 ex = Executors.with_map(tap, mk_fn(i, ly.get("fn"), "fn"), error_fn=mk_fn(i, ly.get("efn"), "efn"),
@@ -209,6 +209,11 @@ def build(p):
                         f = Future()
                         f.set_exception(LayerError(i, "fefn"))
                         return f
+                elif ly.get("efn") == "nonfuture":
+                    def fefn(exc, i=i):
+                        # "recovers" with a plain value: the same TypeError as for a map function that returns no future
+                        E.emit("FnCall", k=i, s="fefn:nonfuture")
+                        return Tag(i, 0)
                 ex = Executors.with_flat_map(tap, mk_flat_fn(i, ly.get("fn")), error_fn=fefn, name=nm)
             elif t == "retry" and ly.get("policy"):
                 from more_executors import ExceptionRetryPolicy
